@@ -17,7 +17,7 @@ import (
 // models.
 
 func init() {
-	SelfTests = append(SelfTests, zucm.SelfTest)
+	selfTests("C11", zucm.SelfTest)
 	register(&Prop{
 		ID:        "C11",
 		Level:     "exploration",
